@@ -271,6 +271,12 @@ func faultsParse(src []byte, mode string) []faultObs {
 // faultsPackage: the file decorated as (part of) a package, the way Decorator.ParseDir does it:
 // DecorateNode on an *ast.Package of two files, resolver failing at call k.
 func faultsPackage(src []byte, mode string) []faultObs {
+	return append(faultsPackageScoped(src, mode, false), faultsPackageScoped(src, mode, true)...)
+}
+
+// scoped: the package is built by ast.NewPackage, so it has a package scope whose objects point at the
+// declarations of the files; decoration then reaches those declarations through the scope first
+func faultsPackageScoped(src []byte, mode string, scoped bool) []faultObs {
 	second := []byte("package " + packageNameOf(src) + "\n\nimport \"os\"\n\nvar secondFileVar = os.Args\n")
 	run := func(k int, sentinel error) (*dst.Package, string, int, error, string) {
 		var dr resolver.DecoratorResolver
@@ -290,6 +296,11 @@ func faultsPackage(src []byte, mode string) []faultObs {
 				return nil, "", 0, err, ""
 			}
 			pkg.Files[name] = af
+		}
+		if scoped {
+			if sp, _ := ast.NewPackage(fset, pkg.Files, nil, nil); sp != nil {
+				pkg = sp
+			}
 		}
 		before := astDigest(pkg.Files["a.go"]) + astDigest(pkg.Files["b.go"])
 		d := decorator.NewDecoratorWithImports(fset, "example.com/local", dr)
@@ -321,7 +332,11 @@ func faultsPackage(src []byte, mode string) []faultObs {
 	}
 	for k := 1; k <= n; k += step {
 		sentinel := fmt.Errorf("sentinel %d: %w", k, errInjected)
-		o := faultObs{Op: "package-" + mode, Calls: n, FailAt: k, ExpectedCalls: -1}
+		op := "package-" + mode
+		if scoped {
+			op = "package-scoped-" + mode
+		}
+		o := faultObs{Op: op, Calls: n, FailAt: k, ExpectedCalls: -1}
 		dp, same, _, err, msg := run(k, sentinel)
 		if msg != "" {
 			o.Panic, o.Msg = true, msg
